@@ -84,6 +84,15 @@ def conformance(chk: Check, cov):
         chk.violation(f"{PID}:real-concurrent:results-differ", "real concurrent processes computed different tensors",
                       recipe="mc.jitconf.real_concurrent", observed=outs)
     n += len(outs)
+    # re-enactment of the model's outcome class "waiter times out while the builder is still compiling; a later request reuses the cache"
+    sb = jitconf.real_slow_builder()
+    cov["real_slow_builder_outcomes"] = {k: {kk: vv for kk, vv in v.items() if kk != "A"} for k, v in sb.items()}
+    ok = (sb["builder"].get("built") is True and sb["waiter"].get("exc") == "TimeoutError" and sb["later"].get("built") is False
+          and sb["later"].get("A") == sb["builder"].get("A"))
+    if not ok:
+        chk.violation(f"{PID}:real-slow-builder", f"real processes with a slow C compiler: expected builder=built, waiter=TimeoutError, later=cached with equal kernels; got "
+                      f"{cov['real_slow_builder_outcomes']}", recipe="mc.jitconf.real_slow_builder", observed=sb)
+    n += 3
     return n
 
 
